@@ -23,6 +23,9 @@ pub enum FaultKind {
     /// black hole: source pending forever without a wake-up, sink accepts into the void;
     /// `close_ok` = whether `poll_close` completes
     Silent { close_ok: bool },
+    /// a buffering sink (like tungstenite's): messages are still accepted, the failure of the transport only shows when they are
+    /// flushed; the source stays silent (`true`) or fails too (`false`)
+    FlushErr { silent_source: bool },
     /// black hole whose send buffer is full: source pending forever, the sink never becomes ready again, nothing can be
     /// flushed or closed (a dead peer behind a TCP connection with a full send queue)
     SilentBlockedSink,
@@ -41,6 +44,7 @@ impl FaultKind {
             Self::SendErr { silent_source } => format!("SendErr(silent_source={silent_source})"),
             Self::Silent { close_ok } => format!("Silent(close_ok={close_ok})"),
             Self::SilentBlockedSink => "SilentBlockedSink".into(),
+            Self::FlushErr { silent_source } => format!("FlushErr(silent_source={silent_source})"),
             Self::Garbage(b) => format!("Garbage({}B)", b.len()),
             Self::SendErrOnly => "SendErrOnly".into(),
         }
@@ -77,6 +81,8 @@ enum Sink {
     Void,
     /// never ready, never flushed, never closed (and never woken)
     Blocked,
+    /// accepts messages (into the void), fails when flushed or closed
+    FlushErr,
 }
 
 struct Link {
@@ -158,6 +164,10 @@ impl Net {
                 self.eps[e].src = Src::Silent;
                 self.eps[e].sink = Sink::Void;
                 self.eps[e].close_never_completes = !close_ok;
+            }
+            FaultKind::FlushErr { silent_source } => {
+                self.eps[e].sink = Sink::FlushErr;
+                self.eps[e].src = if silent_source { Src::Silent } else { Src::ErrThenEof };
             }
             FaultKind::SilentBlockedSink => {
                 self.eps[e].src = Src::Silent;
@@ -252,7 +262,7 @@ impl WebSocket for MemWs {
         let mut n = self.net.lock().unwrap();
         match n.eps[e].sink {
             Sink::Err => Poll::Ready(Err(io_err("sink failed"))),
-            Sink::Void => Poll::Ready(Ok(())),
+            Sink::Void | Sink::FlushErr => Poll::Ready(Ok(())),
             Sink::Blocked => Poll::Pending,
             Sink::Normal => {
                 let l = &mut n.links[e];
@@ -278,7 +288,7 @@ impl WebSocket for MemWs {
         }
         match n.eps[e].sink {
             Sink::Err => Err(io_err("sink failed")),
-            Sink::Void | Sink::Blocked => Ok(()),
+            Sink::Void | Sink::Blocked | Sink::FlushErr => Ok(()),
             Sink::Normal => {
                 if n.links[e].close_queued {
                     return Err(io_err("send after close"));
@@ -298,7 +308,7 @@ impl WebSocket for MemWs {
     fn poll_flush_unpin(&mut self, cx: &mut Context<'_>) -> Poll<Result<(), Error>> {
         let e = self.ep as usize;
         let mut n = self.net.lock().unwrap();
-        if n.eps[e].sink == Sink::Err {
+        if n.eps[e].sink == Sink::Err || n.eps[e].sink == Sink::FlushErr {
             return Poll::Ready(Err(io_err("sink failed")));
         }
         if n.eps[e].sink == Sink::Blocked {
@@ -323,7 +333,7 @@ impl WebSocket for MemWs {
             return Poll::Pending; // a black-holed connection: the close frame cannot be flushed
         }
         match n.eps[e].sink {
-            Sink::Err => Poll::Ready(Err(io_err("sink failed"))),
+            Sink::Err | Sink::FlushErr => Poll::Ready(Err(io_err("sink failed"))),
             Sink::Void => Poll::Ready(Ok(())),
             Sink::Blocked => Poll::Pending,
             Sink::Normal => {
